@@ -73,6 +73,13 @@ def _case(draw, tier):
         "seed": draw(st.integers(0, 2**31 - 1)),
         "materialise_edges_first": draw(st.booleans()),
         "moved_centres": draw(st.sampled_from([False, False, False, True])),
+        # onto the source mesh: the source Grid object itself, or a second Grid of the same nodes and faces (plain, with
+        # other face centres supplied, or with its own supplied edge numbering)
+        "twin": draw(st.sampled_from(["object", "object", "twin", "twin-centres", "twin-edges"])) if same else None,
+        "src_edge_seed": draw(st.sampled_from([None, None, 3, 17])),
+        # Cartesian node coordinates supplied on a sphere of this radius (None: lon/lat only)
+        "radius_src": draw(st.sampled_from([None, None, None, 1.0, 2.5, 6371.0])),
+        "radius_dst": draw(st.sampled_from([None, None, None, 1.0, 2.5, 6371.0])),
     }
 
 
@@ -97,18 +104,27 @@ def classify(case):
     if ne == nf:
         labs.append("src:n_edge==n_face")
     if case["dst"] is None:
-        labs.append("onto-source-grid")
+        labs.append("onto-source-grid:" + str(case.get("twin") or "object"))
+    if case.get("radius_src") not in (None, 1.0) or case.get("radius_dst") not in (None, 1.0):
+        labs.append("non-unit-cartesian-supplied")
+    if case.get("src_edge_seed") is not None:
+        labs.append("src:edges-supplied")
     sup = bool(case["src"].get("centers"))
     if sup:
         labs.append("src:centres-supplied")
     return labs, (co or bool(case["lead"]) or case["kind"] != case["remap_to"] or sup)
 
 
-def _grid(mesh):
+def _grid(mesh, radius=None, edge_seed=None):
     kw = {}
     if mesh.get("centers"):
         c = np.asarray(mesh["centers"], float)
         kw["face_lon"], kw["face_lat"] = c[:, 0].copy(), c[:, 1].copy()
+    if radius is not None:
+        xyz = meshgen.mesh_xyz(mesh) * radius
+        kw["node_x"], kw["node_y"], kw["node_z"] = (np.ascontiguousarray(xyz[:, i]) for i in range(3))
+    if edge_seed is not None:
+        kw["edge_node_connectivity"] = np.array(writers.numbered_edges(mesh, edge_seed), dtype=np.int64)
     return build.grid_from_mesh(mesh, **kw)
 
 
@@ -132,8 +148,18 @@ def run_case(case, ctx):
     fails = []
     src_mesh = case["src"]
     dst_mesh = case["dst"] or src_mesh
-    gs = _grid(src_mesh)
-    gd = gs if case["dst"] is None else _grid(dst_mesh)
+    twin = case.get("twin") or "object"
+    if case["dst"] is None and twin == "twin-centres":
+        # same nodes and faces, but this grid's face centres are supplied: the midpoint of each face's first edge
+        xyz_s = meshgen.mesh_xyz(src_mesh)
+        mid = np.array([S.arc_midpoint(tuple(xyz_s[f[0]]), tuple(xyz_s[f[1]])) for f in src_mesh["faces"]])
+        lo, la = writers.lonlat_of(mid)
+        dst_mesh = dict(src_mesh, centers=[[float(a), float(b)] for a, b in zip(lo, la)])
+    gs = _grid(src_mesh, case.get("radius_src"), case.get("src_edge_seed"))
+    if case["dst"] is None and twin == "object":
+        gd = gs
+    else:
+        gd = _grid(dst_mesh, case.get("radius_dst"), 29 if twin == "twin-edges" else None)
     if case["materialise_edges_first"]:
         gs.edge_node_connectivity
     kind, remap_to, coord_type = case["kind"], case["remap_to"], case["coord_type"]
@@ -207,7 +233,12 @@ def run_case(case, ctx):
                 )
                 break
         ctx.label("nn-ties-skipped" if skipped else "nn-no-ties")
-        if not fails and kind == remap_to and case["dst"] is None and skipped == 0:
+        if not fails and kind == remap_to and case["dst"] is None and skipped == 0 and (
+            twin == "object"
+            or kind == "nodes"
+            or (kind == "face centers" and twin != "twin-centres")
+            or (kind == "edge centers" and twin in ("twin", "twin-centres") and case.get("src_edge_seed") is None)
+        ):
             ctx.ev("nn_identity")
             if not np.array_equal(got, data):
                 bad("nn_identity", "not-identity", "remapping onto the source grid's own elements changed the values")
